@@ -204,8 +204,8 @@ class Ctx:
         path = os.path.join(REPLAYS, self.pid, h + ".json")
         with open(path, "w") as f:
             f.write(txt)
-        if len(self.violations) < 20:
-            self.violations.append((path, no_input))
+        if sum(1 for _, ni in self.violations if bool(ni) == bool(no_input)) < 20:      # at most 20 of each class are kept
+            self.violations.append((path, bool(no_input)))
         self.log("violation recorded:", kind, short(detail, 600))
 
     # ---- Coq
@@ -308,7 +308,8 @@ class Ctx:
         for n in self.notes:
             print("NOTE:", n, flush=True)
         if self.violations:
-            for path, no_input in self.violations[:10]:
+            # violations that carry a failing input come first (a broken proof obligation or correspondence is reported after them)
+            for path, no_input in sorted(self.violations, key=lambda v: v[1])[:10]:
                 print("VIOLATION property=%s replay=%s%s" % (self.pid, path, " no-failing-input-found" if no_input else ""), flush=True)
             return 1
         if ndis != nob:
